@@ -9,7 +9,7 @@ import (
 
 func init() {
 	register("C12", runC12, propMeta{
-		Explanation: "Decides, for all rule sets and name lists, how the 11 ExecuteSelected* functions choose and order rules: (N1) the local rule slice is filled only by appending, on the ok-edge, the hit of a comma-ok lookup of each caller-supplied name (ranged forward) in the container's name map, and has no other store; the looked-up value is never used on the miss edge (no nil dereference); (N3) every rule execution and go statement is dominated by the knowledge that the slice is non-empty and the empty case returns a new error; (N4) in the selected N-M variants a miss returns a new error with nothing running and n+m == len(names) is checked first; (N2) sorted variants sort that slice (descending salience, C04-O1) on every path before ranging it, the AsGivenSortedName variants contain no sort of it at all; (N5) every stage, and every synchronous single execution, takes its rules from that slice — the whole of it for the sort/concurrent variants, the partitions/windows checked in C05 for mix, inverse-mix and N-M. Not decided: rule bodies. The pool's selected methods call the engine method of their own name with their own arguments, each in its place (N8). (N9) the pool's dispatcher by execution model hands a selection to the selected method of that model only.",
+		Explanation: "Decides, for all rule sets and name lists, how the 11 ExecuteSelected* functions choose and order rules: (N1) the local rule slice is filled only by appending, on the ok-edge, the hit of a comma-ok lookup of each caller-supplied name (ranged forward) in the container's name map, and has no other store; the looked-up value is never used on the miss edge (no nil dereference); (N3) every rule execution and go statement is dominated by the knowledge that the slice is non-empty and the empty case returns a new error; (N4) in the selected N-M variants a miss returns a new error with nothing running and n+m == len(names) is checked first; (N2) sorted variants sort that slice (descending salience, C04-O1) on every path before ranging it, the AsGivenSortedName variants contain no sort of it at all; (N5) every stage, and every synchronous single execution, takes its rules from that slice — the whole of it for the sort/concurrent variants, the partitions/windows checked in C05 for mix, inverse-mix and N-M. Not decided: rule bodies. The pool's selected methods call the engine method of their own name with their own arguments, each in its place (N8). (N9) the pool's dispatcher by execution model hands a selection to the selected method of that model only. (N10) a faulting rule fails. (N11) a removal installs a fresh container whose name map, sorted list and index hold exactly the rules not named: a removed rule is an unknown name.",
 		Assumptions: []string{"Go map lookup semantics", "sort.SliceStable"},
 		Trusted:     commonTrusted,
 	})
